@@ -1,4 +1,5 @@
 """C05 - the 'got' text is the Debug form of the value that was tested."""
+import rendered
 import verdicts
 
 
@@ -38,3 +39,4 @@ def set_summaries(ck):
 def run(ck):
     verdicts.check(ck, "C05", ["AsModel.Theorems.C05"])
     set_summaries(ck)
+    rendered.run(ck, "C05")
